@@ -78,18 +78,46 @@ func scanAll(src string) []obsTok {
 		q = col.Queue[cdc.TokenLike](sharedNotation).MakeWithCapacity(uint(n))
 	}
 	cdc.Scanner().Make(src, q)
-	var toks []obsTok
-	for {
-		t, ok := q.RemoveHead()
-		if !ok {
-			break
+	// The scanner must end its stream with an EOF token.  A scanner that does not (a changed library) would leave this
+	// reader blocked for ever - and the Go runtime would kill the harness ("all goroutines are asleep") - so the tokens are
+	// read in a goroutine of their own under a watchdog; a stream without EOF is returned as it is (the model's stream
+	// ends with EOF, so the case mismatches) and the shared queue is given up.
+	done := make(chan []obsTok, 1)
+	go func() {
+		var toks []obsTok
+		for {
+			t, ok := q.RemoveHead()
+			if !ok {
+				break
+			}
+			toks = append(toks, obsTok{t.GetType(), t.GetValue(), t.GetLine(), t.GetPosition()})
+			if t.GetType() == cdc.EOFToken {
+				break
+			}
+			if len(toks) > n+8 {
+				break
+			}
 		}
-		toks = append(toks, obsTok{t.GetType(), t.GetValue(), t.GetLine(), t.GetPosition()})
-		if t.GetType() == cdc.EOFToken {
-			break
+		done <- toks
+	}()
+	select {
+	case toks := <-done:
+		return toks
+	case <-time.After(3 * time.Second):
+		if q == sharedTokenQueue {
+			sharedTokenQueue = nil // the blocked reader keeps the old queue
 		}
+		var toks []obsTok
+		// what the scanner delivered before it stopped delivering (re-scan into a private queue, read without blocking)
+		pq := col.Queue[cdc.TokenLike](sharedNotation).MakeWithCapacity(uint(n))
+		cdc.Scanner().Make(src, pq)
+		time.Sleep(200 * time.Millisecond)
+		for pq.GetSize() > 0 {
+			t, _ := pq.RemoveHead()
+			toks = append(toks, obsTok{t.GetType(), t.GetValue(), t.GetLine(), t.GetPosition()})
+		}
+		return toks
 	}
-	return toks
 }
 
 type parseObs struct {
@@ -793,7 +821,14 @@ func genCdcnParse(prop string, seed uint64, tier, outDir string, count int) erro
 	var groupHist []string
 	groupRng := newRng(seed ^ 0x5eed)
 	lastKind := ""
+	stoppedNote := ""
 	for i, t := range texts {
+		if meta.Hangs >= 12 {
+			// a library in which ParseSource hangs over and over: the cases so far say it; every further hang costs a
+			// watchdog period, so the remaining texts are not run (the count of cases shrinks accordingly)
+			stoppedNote = fmt.Sprintf("%d of %d texts run", i, len(texts))
+			break
+		}
 		c := pCase{src: t.src, kind: t.kind}
 		c.toks = scanAll(t.src)
 		baseline := knownLeaked + leakedScanners(knownLeaked) // scanner goroutines left by earlier cases (none on the repaired tree)
@@ -908,11 +943,18 @@ func genCdcnParse(prop string, seed uint64, tier, outDir string, count int) erro
 	meta.Cases = len(cases)
 	meta.Rule = "each case is one source text, parsed on a parser instance (cdcn.Parser().Make()) that serves a random group of 1..8 consecutive texts, failing and valid ones mixed, and scanned into a token queue shared by consecutive scans: hand-written corner texts, every prefix and an illegal character at every token boundary of one multi-line document, deep nests, then seeded random texts (derivations of Syntax.cdsn with every literal class and boundary literal, inline/multi-line/empty forms, all seven contexts; the same with inexact literals and value lists under Catalog/Map; one or two mutations of a derivation — prefix, delete/insert/substitute a rune, swap/delete/duplicate/replace a token, illegal character at a token boundary; arbitrary runes and bytes); a case counts as distinct and non-trivial when its text has at least 3 tokens and differs from every other text of the run"
 	meta.Extra = map[string]any{"core_texts": ncore, "input_kinds": meta.OpHist, "tokens_by_type": meta.TypeHist}
+	if stoppedNote != "" {
+		meta.Extra["stopped_after_hangs"] = stoppedNote
+	}
 	if len(predViol) > 0 {
 		meta.Extra["predicate_violations"] = predViol
 	}
 	for i := 0; i < 3 && len(cases) > 0; i++ {
-		meta.Samples = append(meta.Samples, meta.Traces[ncore+(i*(len(cases)-ncore))/3])
+		k := ncore + (i*(len(cases)-ncore))/3
+		if len(cases) <= ncore { // the run was stopped inside the core texts
+			k = (i * len(cases)) / 3
+		}
+		meta.Samples = append(meta.Samples, meta.Traces[k])
 	}
 	meta.Explain = "Definition the_case := nth {case} cases empty_case.\nDefinition Report := Eval vm_compute in case_report the_case.\nPrint Report.\n"
 	shardSize := 100
